@@ -118,6 +118,7 @@ outer:
 			break outer
 		default:
 			r := p.readRune()
+			verifHook("run.read")
 			p.mu.Lock()
 			p.state = anywhere(r, p)
 			if p.state == nil {
@@ -130,7 +131,9 @@ outer:
 	if p.escTimeout != nil {
 		p.escTimeout.Stop()
 	}
+	verifHook("run.eof")
 	p.emit(EOF{})
+	verifHook("run.close")
 	close(p.sequences)
 	p.closed <- true
 }
@@ -465,10 +468,13 @@ func anywhere(r rune, p *Parser) stateFn {
 		}
 		p.clear()
 		p.escTimeout = time.AfterFunc(10*time.Millisecond, func() {
+			verifHook("timer.fired")
 			p.emit(C0(0x1B))
+			verifHook("timer.emitted")
 			p.mu.Lock()
 			p.state = ground
 			p.mu.Unlock()
+			verifHook("timer.done")
 		})
 		return escape
 	default:
